@@ -555,7 +555,8 @@ def c20(ctx):
              "(session settings, subscriptions with options, retained messages with properties and expiry, in-flight messages with packet ids), then judges "
              "%d probe steps of the continued history (session present, redelivery, expiry ticks, retained replay, deliveries). The reference protocol of "
              "Storage.tla is model-checked (%d states). distinct_nontrivial = distinct pre-shutdown projections." % (nh, restarts, probes, mc.distinct),
-        samples=[{k: c[k] for k in ("rule", "backend", "c", "x", "name")} for c in complaints[:5]],
+        samples=[{k: c[k] for k in ("rule", "backend", "c", "x", "name")} for c in complaints[:5]] or
+                [dict(history=h["name"], ops=[{k: v for k, v in o.items() if v not in (0, "", False, None, [], -1)} for o in h["ops"][:8]]) for h in hists[:2]],
         restarts=restarts, probe_steps=probes, complaints=len(complaints), model_states=mc.distinct, deviations_refuted=refuted)
     ctx.assumptions += ["redis is miniredis (in-process)", "filters are exact topic names (wildcard matching is C01's subject)",
                         "a restart is: every connection dropped, Server.Close (stops the hook), new Server + fresh hook instance on the same store, readStore"]
@@ -596,7 +597,8 @@ def c21(ctx):
              "into obligations and judges the restored projection and the probe (%d obligations checked). The reference protocol of Storage.tla is "
              "model-checked with every crash point (%d states); deviations refuted: %s. distinct_nontrivial = (history, backend, crash point) triples." %
              (nh, backends, info["runs"], obl, mc.distinct, sorted(refuted)),
-        samples=[{k: c[k] for k in ("rule", "backend", "c", "x", "why", "name")} for c in complaints[:5]],
+        samples=[{k: c[k] for k in ("rule", "backend", "c", "x", "why", "name")} for c in complaints[:5]] or
+                [dict(history=h["name"], ops=[{k: v for k, v in o.items() if v not in (0, "", False, None, [], -1)} for o in h["ops"][:8]]) for h in hists[:2]],
         crash_runs=info["runs"], obligations=obl, complaints=len(complaints), model_states=mc.distinct, deviations_refuted=refuted)
     ctx.assumptions += ["each storage-hook call is one atomic write (true for the four backends except badger/pebble OnDisconnect = set + delete, "
                         "whose intermediate state equals 'call dropped' for the restored projection)",
